@@ -83,7 +83,50 @@ deliver 1 5
 send 1 4 70
 deliver 0 6"""
 
+# victim = client 2 (a plain member): the cases the two scripts above never reach — the same rumor under a second wrapper id,
+# the echo of an own message / own pending commit / own merged commit, clear_pending_commit, a proposal that is only stored,
+# leave_group, the commit that removes the victim.  TIES ONLY (write sequences, class sequences of the call kinds the model
+# classifies): the oracle is not evaluated on it — a re-issued local call followed by the echo of its ORIGINAL event is an
+# artefact of the procedure, and Model.CrashSeq claims no recovery semantics for the echo / eviction cases.
+S_MEMBER = """client 0 mem 5
+client 1 mem 5
+client 2 sql 5
+kp 0
+kp 1
+kp 2
+create 0 0 5 2 1,2
+welcome 1 0 0
+accept 1 0 0
+welcome 2 1 0
+welcome 2 1 1
+accept 2 1 0
+send 2 1 10
+selfupdate 2 20
+clear 2
+deliver 2 0
+deliver 0 0
+deliver 1 0
+selfupdate 2 30
+send 2 2 35
+deliver 2 2
+deliver 0 2
+deliver 1 2
+deliver 2 3
+deliver 2 2
+leave 1 40
+deliver 2 4
+deliver 0 4
+merge 0
+deliver 2 5
+send 0 3 50
+deliver 2 6
+leave 2 60
+deliver 0 7
+merge 0
+deliver 2 8"""
+
 SCRIPTS = {"invitee": (1, S_INVITEE), "creator": (0, S_CREATOR)}
+TIE_SCRIPTS = {"member": (2, S_MEMBER)}
 
 def load_corpus():
     d = os.path.join(C.VERIF, "corpus", "C12")
@@ -107,6 +150,7 @@ def cases_for(tier):
     instance's memory (rollback) replay the whole script per crash point: sampled in the quick tier"""
     memk = 24 if tier == "quick" else 0
     cs = [{"id": name, "victim": v, "script": s.split("\n"), "maxk": 0, "memk": memk} for name, (v, s) in SCRIPTS.items()]
+    cs += [{"id": name, "victim": v, "script": s.split("\n"), "maxk": 0, "memk": memk, "ties_only": True} for name, (v, s) in TIE_SCRIPTS.items()]
     return cs + load_corpus_with(0, memk)
 
 def load_corpus_with(maxk, memk):
@@ -132,14 +176,18 @@ def proj(p):
     return {"none": False, "recE": int(m.group(1)), "mlsE": int(m.group(2)), "sec": m.group(3), "snaps": int(m.group(4)),
             "pend": int(m.group(5)), "msgs": int(m.group(6)), "pm": pm}
 
-def call_kind(cmd, result, labels):
+def call_kind(cmd, result, labels, pre=None, post=None):
     c = cmd.split("_")[0]
     if c == "deliver":
+        pm_pre = pre.rsplit("/pm:", 1)[1] if pre and "/pm:" in pre else "-"
+        if result == "app" and pm_pre == "c": return "process_own_message"            # the echo of a message this client created
+        if result == "commit" and pm_pre == "k": return "process_own_commit"         # the echo of a commit this client created (pending or merged)
+        if result == "commit" and post and post.endswith("/pm:p"): return "process_commit_evicted"   # the commit removed this client
         if result == "app": return "process_application"
         if result == "proposal-committed" or result in ("pending", "ignored"): return "process_proposal"
         if result == "commit": return "process_commit_rollback" if "restore" in (labels or "") else "process_commit"
         return "process_other"
-    return {"welcome": "process_welcome", "accept": "accept_welcome", "send": "create_message", "selfupdate": "self_update",
+    return {"welcome": "process_welcome", "accept": "accept_welcome", "decline": "decline_welcome", "send": "create_message", "selfupdate": "self_update",
             "add": "add_members", "remove": "remove_members", "data": "update_group_data", "merge": "merge_pending_commit",
             "create": "create_group", "kp": "create_key_package", "leave": "leave_group", "clear": "clear_pending_commit"}.get(c, c)
 
@@ -162,6 +210,8 @@ def classify(row, base, restart):
             return "torn-accept"
         if torn:
             return "torn-merge" + (":heals-at-next-commit" if later_ok and proj(row["end"])["recE"] == proj(row["end"])["mlsE"] else "")
+        if pre["pend"] == 1 and mid["pend"] == 0 and mid["mlsE"] == pre["mlsE"]:
+            return "pending-commit-lost"          # the own pending commit met on the wire: OpenMLS deleted it, the merged state was never written
         if base["callkind"] == "process_welcome" and not retry_ok:
             return "dedup-record-blocks-retry"
         if not retry_ok and all(mid[f] == post[f] for f in ("recE", "mlsE", "sec", "snaps", "pend", "msgs")) and mid["pm"] == "none" and post["pm"] != "none" \
@@ -229,8 +279,9 @@ def run(cases):
             if cur is None or cur.get("done"):
                 cur = next(it); cur.update({"base": [], "rows": [], "restart": {}, "restartafter": {}, "memrows": [], "done": False})
             b = {"i": int(t[1]), "ticks": int(t[2]), "kind": t[3], "labels": kv(line, "labels"), "cmd": kv(line, "cmd"),
-                 "result": line.split(" => ")[1].split()[0], "pre": kv(line, "pre"), "post": kv(line, "post")}
-            b["callkind"] = call_kind(b["cmd"], b["result"], b["labels"])
+                 "result": line.split(" => ")[1].split()[0], "pre": kv(line, "pre"), "post": kv(line, "post"),
+                 "tabspre": kv(line, "tabspre"), "tabspost": kv(line, "tabspost")}
+            b["callkind"] = call_kind(b["cmd"], b["result"], b["labels"], b["pre"], b["post"])
             cur["base"].append(b)
         elif t[0] == "basefinal":
             cur["basefinal"] = {"proj": kv(line, "proj"), "agree": kv(line, "agree")}
@@ -241,10 +292,12 @@ def run(cases):
         elif t[0] == "crash":
             cur["rows"].append({"i": int(t[1]), "k": int(t[2]), "label": kv(line, "label"), "kind": kv(line, "kind"), "loads": kv(line, "loads"),
                                 "state": kv(line, "state"), "mid": kv(line, "mid"), "retry": kv(line, "retry"), "later": kv(line, "later"),
-                                "final": kv(line, "final"), "obs": kv(line, "obs"), "end": kv(line, "end"), "panicked": kv(line, "panicked")})
+                                "final": kv(line, "final"), "obs": kv(line, "obs"), "end": kv(line, "end"), "panicked": kv(line, "panicked"),
+                                "tabs": kv(line, "tabs")})
         elif t[0] == "crashmem":
             cur["memrows"].append({"i": int(t[1]), "k": int(t[2]), "label": kv(line, "label"), "loads": kv(line, "loads"), "pre": kv(line, "pre"),
-                                   "mid": kv(line, "mid"), "retry": kv(line, "retry"), "end": kv(line, "end"), "agree": kv(line, "agree")})
+                                   "mid": kv(line, "mid"), "retry": kv(line, "retry"), "end": kv(line, "end"), "agree": kv(line, "agree"),
+                                   "tabs": kv(line, "tabs"), "tabspre": kv(line, "tabspre")})
         elif t[0] == "end":
             cur["done"] = True
     for c in cases:
@@ -288,6 +341,18 @@ def oracle(cases):
                         "restart_divergent_calls": 0, "nonpanicking_points": 0}
     seen = set()
     for c in cases:
+        if c.get("ties_only"):
+            stats["tie_only_crash_points"] = stats.get("tie_only_crash_points", 0) + len(c["rows"]) + len(c["memrows"])
+            stats["tie_only_loads"] = stats.get("tie_only_loads", 0) + sum(r["loads"] == "1" for r in c["rows"] + c["memrows"])
+            stats.setdefault("tie_only_classes", {})
+            for r in c["rows"]:
+                key = f"{r['class'].split(':')[0]}:{r['callkind']}"
+                stats["tie_only_classes"][key] = stats["tie_only_classes"].get(key, 0) + 1
+            for r in c["rows"] + c["memrows"]:
+                if r["loads"] != "1":
+                    fails.append({"kind": "oracle", "signature": f"unloadable:{r['callkind']}", "what": f"{c['id']} call {r['i']} tick {r['k']}: the reopened store does not load",
+                                  "replay_body": case_text(c, r, "unloadable"), "case": c})
+            continue
         stats["calls"] += len(c["base"])
         stats["ticks_total"] += sum(b["ticks"] for b in c["base"])
         stats["restart_divergent_calls"] += sum(1 for r in c["restart"].values() if r["result"] != r["expected"])
@@ -328,27 +393,72 @@ def observed_classes(c, i):
             seq.append(k)
     return seq
 
-def tie(cases):
-    """the model's class sequence per call kind (mdkdrv crashcore) against the observed one"""
+def model_lines():
+    """`mdkdrv crashcore`: ({callkind: classes} of Model.CrashCore, {callkind: [(case, path index, classes)]} of
+    Model.CrashSeq, [open signature])"""
     rc, out, err = C.run_lines([C.DRV, "crashcore"], "")
-    model = {l.split()[0]: l.split()[1].split(",") for l in out if l.strip()}
+    core, seqs, opens = {}, {}, []
+    for l in out:
+        t = l.split()
+        if not t:
+            continue
+        if t[0] == "seq":
+            seqs.setdefault(t[1], []).append((int(t[2]), int(t[3]), t[4].split(",") if len(t) > 4 else []))
+        elif t[0] == "open":
+            opens.append(t[1])
+        elif len(t) > 1:
+            core[t[0]] = t[1].split(",")
+    return core, seqs, opens
+
+def tie(cases):
+    """the model's class sequence per call kind (mdkdrv crashcore) against the observed one: the four calls of
+    Model.CrashCore, and every call kind Model.CrashSeq classifies (the observed sequence must be the one of SOME
+    translated path of a case of that kind)"""
+    model, seqs, _opens = model_lines()
     bad, compared = [], 0
     for c in cases:
         if c.get("maxk", 0):
             continue                      # sampled enumeration may skip a short phase: the tie needs every tick
         for b in c["base"]:
-            if b["callkind"] in model:
-                compared += 1
-                obs = observed_classes(c, b["i"])
-                if len(obs) == len(model[b["callkind"]]) + 1 and obs[-1] == "recoverable":
-                    obs = obs[:-1]            # ticks after the last effect that matters: the call is complete for every observer
-                if obs != model[b["callkind"]]:
-                    bad.append((c, b["i"], f"{b['callkind']}: observed class sequence {obs} but Model.CrashCore lists {model[b['callkind']]}"))
+            kind = b["callkind"]
+            if kind not in model and kind not in seqs:
+                continue
+            if c.get("ties_only") and kind == "create_message":
+                continue                  # re-issued with a pending commit stored, then the echo of the ORIGINAL events: not comparable
+            compared += 1
+            obs = observed_classes(c, b["i"])
+            def fits(want):
+                return obs == want or (len(obs) == len(want) + 1 and obs[-1] == "recoverable" and obs[:-1] == want)
+                # ticks after the last effect that matters: the call is complete for every observer
+            if kind in model and not fits(model[kind]):
+                bad.append((c, b["i"], f"{kind}: observed class sequence {obs} but Model.CrashCore lists {model[kind]}"))
+            if kind in seqs and not any(fits(w) for _c, _p, w in seqs[kind]):
+                bad.append((c, b["i"], f"{kind}: observed class sequence {obs} is the sequence of no translated path: Model.CrashSeq lists " +
+                            "; ".join(f"case {cc} path {pp}: {','.join(w)}" for cc, pp, w in seqs[kind])))
     return bad, compared, model
+
+def open_findings_tie():
+    """(ok, text): the open mechanisms the model derives from the regenerated table (`unrecoverable_signatures`) are the
+    open crash findings of known_findings.jsonl (`<mechanism>:<call>`) — process_commit_rollback is the commit case reached
+    through a rollback, which Model.CrashSeq does not classify"""
+    import json, re
+    _m, _s, opens = model_lines()
+    known = set()
+    for l in open(os.path.join(C.VERIF, "known_findings.jsonl")):
+        l = l.strip()
+        if not l:
+            continue
+        e = json.loads(l)
+        if e.get("status") == "open" and "C12" in e.get("properties", []) and re.fullmatch(r"[a-z-]+:[a-z_]+", e.get("signature", "")):
+            known.add(e["signature"])
+    mine = set(opens) | {"torn-merge:process_commit_rollback"}
+    if mine == known:
+        return True, f"{len(known)} open crash mechanisms, the same in known_findings.jsonl and in Props/C12.lean unrecoverable_signatures"
+    return False, f"model-only: {sorted(mine - known)}; known-findings-only: {sorted(known - mine)}"
 
 def replay(path):
     """re-executes one core-level history: every crash point of the call named in the trace (or of all calls)"""
-    victim, lines, point = 1, [], None
+    victim, lines, point, ties_only = 1, [], None, False
     for l in open(path):
         l = l.strip()
         m = re.match(r"# crash point: call (\d+) .* tick (\d+)", l)
@@ -357,9 +467,9 @@ def replay(path):
         if not l or l.startswith("#"):
             continue
         if l.startswith("victim "):
-            victim = int(l.split()[1]); continue
+            victim = int(l.split()[1]); ties_only = "tiesonly" in l.split(); continue
         lines.append(l)
-    c = {"id": os.path.basename(path), "victim": victim, "script": lines, "maxk": 0, "memk": 0}
+    c = {"id": os.path.basename(path), "victim": victim, "script": lines, "maxk": 0, "memk": 0, "ties_only": ties_only}
     run([c])
     for b in c["base"]:
         print(f"call {b['i']} {b['callkind']} `{b['cmd']}` ticks={b['ticks']} labels={b['labels']} pre={b['pre']} post={b['post']}")
